@@ -629,5 +629,7 @@ def run(chk, tier):
     chk.guard('C05.d', lambda: c05.rule_literals(chk, prog, tier))            # the type of an integer literal (by base, suffix, magnitude) decides how the expressions built from it fold
     chk.guard('C05.d2', lambda: c05.rule_literal_base(chk, prog, tier))       # ... and primaryexpr has to hand inttype the right base
     chk.guard('C10.h', lambda: c10.rule_staticassert(chk, prog, tier))        # static assertions are one of the folding contexts
+    from props import c15
+    chk.guard('C15.f', lambda: c15.rule_case_conversion(chk, prog, tier))     # case labels are another: the folded constant is converted to the promoted controlling type
     from props import c07
     chk.guard('C07.b', lambda: c07.rule_emitdata(chk, prog, tier))
